@@ -34,11 +34,11 @@ class C13:
     san = False
     rule = ("two scripted targets A and B of one shape (TS<Int>, TSS<Int>, TSD<Int,TS<Int>>, TSB) and a scripted Bool selector feed if_then_else; the "
             "reference-shaped result is read by two consumers directly, by a consumer below a nested pass-through graph, and by a consumer of an "
-            "if_then_else wired inside a nested graph; timings: retarget to a target that ticked earlier / in the same cycle / never, retarget back, "
+            "if_then_else wired inside a nested graph, and (sets, dictionaries, scalars) by consumers of the same selection made by switch_ with branches that return their input directly or behind a reference-shaped terminal; timings: retarget to a target that ticked earlier / in the same cycle / never, retarget back, "
             "selector re-ticks that select the same target, ticks of the unselected target. Oracle (model of the documented sampled-rebind semantics): "
             "a consumer is evaluated at t iff the selected target ticked at t or the reference was retargeted at t to a valid target; when evaluated it "
             "reads the target's current value as modified; on a retarget the delta is the current value (TS/TSB) or, for sets and dictionaries, exactly "
-            "the difference between what the consumer held before and the new contents (removed within its previous value, added outside it); a "
+            "the difference between what the consumer held before and the new contents (removed within its previous value, added outside it; previous view + delta_value() = value; every live dictionary entry sampled as modified; key views and item views of the delta agree); a "
             "republished unchanged reference causes no evaluation; ticks of unselected targets never reach the consumer. non-trivial = >= 2 retargets; "
             "distinct = distinct (shape, scripts)")
     assumptions = ["retarget to a never-valid target: only 'reads invalid if evaluated' is asserted (scalar unbind is documented as silent)",
